@@ -5,6 +5,7 @@
 //!   {"harness":..,"cases":N,"distinct_nontrivial":M,"bound":"..","failures":[{"fn":..,"input":..,"expected":..,"got":..,"class":..}]}
 mod clpfd;
 mod clpz;
+mod diseq;
 mod fd;
 mod hooks;
 mod lterm;
@@ -45,6 +46,8 @@ fn main() {
         ("replay", "lterm") => lterm::replay(&args[3]),
         ("search", "unify") => unify::search(&tier, only.as_deref()),
         ("replay", "unify") => unify::replay(&args[3]),
+        ("search", "diseq") => diseq::search(&tier, seed, only.as_deref()),
+        ("replay", "diseq") => diseq::replay(&args[3]),
         ("search", "clpz") => clpz::search(&tier, only.as_deref()),
         ("replay", "clpz") => clpz::replay(&args[3]),
         _ => {
